@@ -16,6 +16,33 @@ ASSUMPTIONS = ['parking_lot RwLock write guards are exclusive', 'a task is only 
 G = 'datacake_eventual_consistency::keyspace::group::'
 KG = G + 'KeyspaceGroup'
 LOCK_W = ('lock_api::rwlock::RwLock::write', 'lock_api::mutex::Mutex::lock', 'std::sync::RwLock::write', 'std::sync::Mutex::lock')
+LOCK_R = ('lock_api::rwlock::RwLock::read', 'lock_api::rwlock::RwLock::upgradable_read', 'std::sync::RwLock::read')
+BT = 'alloc::collections::btree::map::'
+OVERWRITE = (BT + 'BTreeMap::insert', BT + 'entry::OccupiedEntry::insert', BT + 'entry::Entry::insert_entry')
+ABSENT_ONLY = (BT + 'entry::VacantEntry::insert', BT + 'entry::VacantEntry::insert_entry')
+LOOKUP_OR_INSERT = (BT + 'entry::Entry::or_insert', BT + 'entry::Entry::or_insert_with', BT + 'entry::Entry::or_insert_with_key', BT + 'entry::Entry::or_default')
+LOOKUP = (BT + 'BTreeMap::get', BT + 'BTreeMap::get_mut', BT + 'entry::OccupiedEntry::get', BT + 'entry::OccupiedEntry::get_mut',
+          BT + 'entry::OccupiedEntry::into_mut', BT + 'BTreeMap::get_key_value')
+
+
+def return_points(body):
+    """[(block, stmt-or-term)] writing the return place itself"""
+    out = [(b, s) for b, _j, s in body.assigns() if s['lhs']['l'] == 0 and not s['lhs']['p']]
+    out += [(b, t) for b, t in body.calls() if t['dest']['l'] == 0 and not t['dest']['p']]
+    return out
+
+
+def ret_sources(body, flow, s):
+    """locals the returned value is derived from"""
+    if s.get('k') == 'call':
+        return flow.backward([op_local(a) for a in s['args'] if op_local(a) is not None])
+    src = set()
+    if s.get('rv'):
+        for pl in rv_places(s['rv']):
+            src |= flow.backward([pl['l']])
+    return src
+
+
 ABSENCE = ('alloc::collections::btree::map::BTreeMap::get', 'alloc::collections::btree::map::BTreeMap::contains_key',
            'alloc::collections::btree::map::BTreeMap::entry', 'alloc::collections::btree::map::BTreeMap::get_mut')
 
@@ -101,7 +128,7 @@ def check(ctx):
         ctx.bad('C18.A1', 'anchor', '', 'get_or_create_keyspace not found (fail closed)')
         return
     reach = [b for b in cg.reach([root], bound=4) if b.crate == 'datacake_eventual_consistency' and b.name.startswith(G)]
-    n_group = n_ts = 0
+    n_group = n_ts = n_ret = 0
     for body in reach:
         flow = Flow(body)
         calls = list(body.calls())
@@ -109,7 +136,7 @@ def check(ctx):
         for b, t in calls:
             if cname(t) in LOCK_W:
                 locks[t['dest']['l']] = (b, t, field_of_lock(body, flow, facts, t))
-        inserts = [(b, t) for b, t in calls if cname(t) in ('alloc::collections::btree::map::BTreeMap::insert',)]
+        inserts = [(b, t) for b, t in calls if cname(t) in OVERWRITE + ABSENT_ONLY + LOOKUP_OR_INSERT]
         # group-table absence tests under a write guard, by guard
         group_tests = {}
         for gl, (lb, lt, fld) in locks.items():
@@ -118,6 +145,14 @@ def check(ctx):
             for b, t in calls:
                 if cname(t) in ABSENCE and gl in flow.backward([op_local(t['args'][0])]) and body.dominates(lb, b):
                     group_tests.setdefault(gl, []).append((b, t))
+        # lookups on the keyspace table (under any guard of it): their results are "the table's instance"
+        table_guards = {l for l, (_b, _t, f) in locks.items() if f == 'group'}
+        for b, t in calls:
+            if cname(t) in LOCK_R and field_of_lock(body, flow, facts, t) == 'group':
+                table_guards.add(t['dest']['l'])
+        lookups = [t['dest']['l'] for b, t in calls if cname(t) in LOOKUP + LOOKUP_OR_INSERT
+                   and table_guards & flow.backward([op_local(t['args'][0])])]
+        real_inserts = []      # blocks where this task's fresh actor really enters the table
         for ib, it in inserts:
             recv = flow.backward([op_local(it['args'][0])])
             gls = [gl for gl in locks if gl in recv]
@@ -131,52 +166,70 @@ def check(ctx):
                 key = '%s|group-insert' % name
                 ys = yields_on_paths(body, lb, ib)
                 tests = group_tests.get(gl, [])
-                absent_ok = False
-                present_returns_existing = False
-                for tb, tt in tests:
-                    re_ = Presence(body, flow, tb)
-                    # Option: ok = Some (present), err = None (absent)
-                    if cname(tt).endswith('::entry'):
-                        absent_ok = True
-                        present_returns_existing = True
-                        continue
-                    if re_.inspected and any(body.edge_dominates(e, ib) for e in re_.err) and not any(body.edge_dominates(e, ib) for e in re_.ok):
-                        absent_ok = True
-                        # on the present edge the function returns something derived from the lookup
-                        for e in re_.ok:
-                            for rb, s in return_value_blocks(body):
-                                if body.edge_dominates(e, rb):
-                                    src = None
-                                    if s.get('k') == 'call':
-                                        src = flow.backward([op_local(a) for a in s['args'] if op_local(a) is not None])
-                                    elif s.get('rv'):
-                                        src = set()
-                                        for pl in rv_places(s['rv']):
-                                            src |= flow.backward([pl['l']])
-                                    if src and (tt['dest']['l'] in src or any(x['dest']['l'] in src for _tb2, x in tests)):
-                                        present_returns_existing = True
-                    if cname(tt).endswith('contains_key'):
-                        for c in [x for x in [tt['dest']['l']]]:
-                            pass
-                good = absent_ok and present_returns_existing and not ys
+                meth = cname(it)
                 why = []
-                if not tests:
-                    why.append('no absence test on the keyspace table is made under the write guard: the insert is unconditional, so a task that lost the '
-                               'race replaces the winner\'s actor (writes acknowledged through the first actor vanish from the set peers synchronise against)')
-                elif not absent_ok:
-                    why.append('the insert is not confined to the absent edge of the test')
-                elif not present_returns_existing:
-                    why.append('on the present edge the existing keyspace is not what the function returns')
+                if meth in ABSENT_ONLY:
+                    absent_ok = True        # a VacantEntry exists only when the key is absent
+                    real_inserts.append((ib, it))
+                elif meth in LOOKUP_OR_INSERT:
+                    absent_ok = True        # inserts only when absent; its result is the table's instance either way
+                else:
+                    absent_ok = False
+                    if meth.endswith('OccupiedEntry::insert'):
+                        why.append('the occupied entry is overwritten: a task that lost the race replaces the winner\'s actor')
+                    for tb, tt in tests:
+                        if cname(tt).endswith('::entry'):
+                            continue
+                        re_ = Presence(body, flow, tb)
+                        if re_.inspected and any(body.edge_dominates(e, ib) for e in re_.err) and not any(body.edge_dominates(e, ib) for e in re_.ok):
+                            absent_ok = True
+                    if absent_ok:
+                        real_inserts.append((ib, it))
+                    elif not [x for x in tests if not cname(x[1]).endswith('::entry')] and not why:
+                        why.append('no absence test on the keyspace table is made under the write guard: the insert is unconditional, so a task that lost the '
+                                   'race replaces the winner\'s actor (writes acknowledged through the first actor vanish from the set peers synchronise against)')
+                    elif not why:
+                        why.append('the insert is not confined to the absent edge of the test')
                 if ys:
                     why.append('an await lies between taking the guard and the insert')
+                good = absent_ok and not ys
                 ctx.ob('C18.A1', key, good, site(body, it['cs']),
-                       'insert-if-absent under one write guard, no await in between; the present edge returns the existing keyspace' if good else '; '.join(why))
+                       'insert-if-absent under one write guard, no await in between' if good else '; '.join(why))
+                # what the function hands back is the instance the table holds
+                ins_roots = set()
+                for rib, rit in real_inserts:
+                    if len(rit['args']) > 1:
+                        ins_roots |= flow.backward([op_local(a) for a in rit['args'][1:] if op_local(a) is not None])
+                ins_roots = {l for l in ins_roots if l > body.argc}
+                for rb, s_ in return_points(body):
+                    if rb not in body.reachable_from([lb]):
+                        src = ret_sources(body, flow, s_)
+                        ok_r = bool(src & set(lookups))
+                        why_r = 'a value returned before the guard is taken does not come from the keyspace table'
+                    else:
+                        src = ret_sources(body, flow, s_)
+                        if src & set(lookups):
+                            ok_r, why_r = True, ''
+                        else:
+                            passes = bool(real_inserts) and body.must_pass([lb], [x[0] for x in real_inserts], [rb])
+                            shares = bool(src & ins_roots)
+                            ok_r = passes and shares
+                            why_r = ('the function can return its own freshly spawned keyspace actor on a path where that actor was not inserted into the '
+                                     'table (the key was already present): the caller applies its mutation to an orphan set that peers never '
+                                     'synchronise against, while the write is acknowledged' if not passes else
+                                     'the value returned after the insert is not the inserted instance')
+                    idx = len([o for o in ctx.obs if o.rule == 'C18.A4' and o.key.startswith(name + '|returns-table-instance')])
+                    ctx.ob('C18.A4', '%s|returns-table-instance#%d' % (name, idx), ok_r, site(body, s_.get('cs')),
+                           'the returned keyspace is the one the table holds (looked up, or inserted on every path to this return)' if ok_r else why_r)
+                    n_ret += 1
             elif fld == 'keyspace_timestamps':
                 n_ts += 1
                 key = '%s|stamp-cell-insert' % name
                 # must lie on the absent edge of a group-table test, with no Yield since that guard was taken
                 good = False
                 why = 'the change-stamp cell is registered unconditionally: a task that lost the race overwrites the winner\'s cell, so the keyspace\'s changes are no longer advertised to peers'
+                if cname(it) in ABSENT_ONLY + LOOKUP_OR_INSERT:
+                    good = True      # an existing cell is kept: the winner's registration survives
                 for ggl, tests in group_tests.items():
                     glb = locks[ggl][0]
                     for tb, tt in tests:
@@ -188,6 +241,10 @@ def check(ctx):
                                 why = 'an await lies between taking the keyspace-table guard and registering the change-stamp cell'
                             else:
                                 good = True
+                # or: registered only after this very task inserted its actor into the table (same guard scope, no await)
+                for rib, rit in real_inserts:
+                    if body.dominates(rib, ib) and not yields_on_paths(body, rib, ib):
+                        good = True
                 # or: insert-if-absent under its own guard
                 own_tests = [(b, t) for b, t in calls if cname(t) in ABSENCE and gl in flow.backward([op_local(t['args'][0])]) and body.dominates(b, ib)]
                 for tb, tt in own_tests:
@@ -198,6 +255,7 @@ def check(ctx):
                        'the change-stamp cell is registered only by the task that created the keyspace' if good else why)
     ctx.floor('C18.A1', 'keyspace-table inserts reachable from get_or_create_keyspace', n_group, 1)
     ctx.floor('C18.A2', 'change-stamp cell inserts reachable from get_or_create_keyspace', n_ts, 1)
+    ctx.floor('C18.A4', 'returns of the function that inserts into the keyspace table', n_ret, 1)
 
     # ---- A3 -------------------------------------------------------------------------
     allowed = {KG + '::load_states_from_storage'}
